@@ -26,7 +26,7 @@ import (
 
 const rule = "fixture = an on-disk tree: public/ with files, sub-directories with and without index, a directory named like the index file, odd names (blank, '..x', '%41.txt'), and outside it secret.txt and public-evil/ - every file holds a unique marker. " +
 	"case = options (Prefix spelled ''|p|/p|/p/|p/q|/|//, custom Index, SetETag, Expires, CacheControl; Directory given or left to its default 'public' below the working directory; passed as a value or as the element of a slice that was used for another directory before) x 1..6 requests: method in {GET, HEAD, POST, PUT, ''}, path assembled from pieces {file names, directory names, '..', '.', '', NUL, backslash, prefix look-alikes such as /px, /p-evil, /p.., <prefix><name> without a slash}, optional If-None-Match (learned from a first response), Range or If-Modified-Since. " +
-	"Oracle: an own resolver over the fixture manifest - not GET/HEAD, prefix mismatch (segment boundary), or Clean('/'+rest) neither a regular file nor a directory -> Static wrote nothing and the next handler produced the response; regular file -> 200 with exactly that file's marker (HEAD: empty body), or 304 with an empty body for a conditional request whose If-None-Match carries the ETag of an earlier response; directory without trailing slash -> 302 whose Location, resolved against the request path, is the cleaned request path plus '/' (an index-less directory may also stay silent); directory with slash -> its index file if regular, else silent; never an outside marker in any response. " +
+	"Oracle: an own resolver over the fixture manifest - not GET/HEAD, prefix mismatch (segment boundary), or Clean('/'+rest) neither a regular file nor a directory -> Static wrote nothing and the next handler produced the response; regular file -> 200 with exactly that file's marker (HEAD: empty body), or 304 with an empty body for a conditional request whose If-None-Match carries the ETag of an earlier response; directory without trailing slash -> 302 whose Location, resolved against the request path, is the cleaned request path plus '/' and which carries no file content (an index-less directory may also stay silent); directory with slash -> its index file if regular, else silent; never an outside marker in any response. " +
 	"non-trivial = a case with a path containing '..', a doubled slash, NUL or a backslash, a prefix look-alike, a directory, or a conditional request; distinct by case text"
 
 var assumptions = []string{
